@@ -13,12 +13,14 @@
 /* every scenario thread "runs on CPU 0": call_rcu() picks the per-CPU helper of CPU 0 when one is installed (op A) */
 #define sched_getcpu() 0
 /* allocations of the library are named (and never recycled) so that helper structures have canonical names in the trace */
-void *vs_named_malloc(size_t sz); void vs_named_free(void *p);
+void *vs_named_malloc(size_t sz); void vs_named_free(void *p); void *vs_named_calloc(size_t n, size_t sz);
 #define malloc(x) vs_named_malloc(x)
 #define free(x) vs_named_free(x)
+#define calloc(n,s) vs_named_calloc(n,s)
 #include "/repo/src/urcu.c"
 #undef malloc
 #undef free
+#undef calloc
 #include "sched.h"
 #include <string.h>
 #define MAXTH 6
@@ -36,8 +38,14 @@ void *vs_named_malloc(size_t sz){ void *p=calloc(1,sz<16?16:sz);
 	else if(nm<64){ sprintf(mnames[nm],"m%d",nm); vs_region(p,sz<16?16:sz,mnames[nm]); nm++; }
 	return p; }
 void vs_retire(const void *p, size_t sz);
+/* the completion object of rcu_barrier() (reference-counted: the caller and every helper's marker hold one reference): named, and quarantined when released */
+static void *cmps[32]; static int ncmp; static char cmpn[32][8];
+void *vs_named_calloc(size_t n, size_t sz){ void *p=calloc(n,sz);
+	if(n==1 && sz==sizeof(struct call_rcu_completion) && ncmp<32){ sprintf(cmpn[ncmp],"cmp%d",ncmp); vs_region(p,sz,cmpn[ncmp]); cmps[ncmp++]=p; }
+	return p; }
 /* memory is never recycled; a released call_rcu_data is quarantined: every later access to it is reported (UAF) */
-void vs_named_free(void *p){ for(int k=0;k<ncrd;k++) if(crds[k]==p) vs_retire(p,sizeof(struct call_rcu_data)); }
+void vs_named_free(void *p){ for(int k=0;k<ncrd;k++) if(crds[k]==p) vs_retire(p,sizeof(struct call_rcu_data));
+	for(int k=0;k<ncmp;k++) if(cmps[k]==p){ vs_note("freecmp %d",k); vs_retire(p,sizeof(struct call_rcu_completion)); } }
 static void cb(struct rcu_head *h){ struct obj *o=caa_container_of(h,struct obj,h);
 	vs_call("cb",o->id); o->ran++;
 	if(o->chain){ struct obj *n=&O[o->id+1]; vs_quiet_begin(); name_crd(get_call_rcu_data()); vs_quiet_end(); vs_call("call_rcu",n->id); call_rcu(&n->h,cb); vs_ret("call_rcu",n->id); }
